@@ -17,6 +17,9 @@ import Mathlib.Data.List.Sort
 import Mathlib.Data.List.Perm.Basic
 import Mathlib.Data.List.Forall2
 import Mathlib.Data.List.Induction
+import CharonV.Proofs.Tbls
+
+set_option linter.unusedSectionVars false
 
 namespace CharonV.DkgGlue
 
@@ -641,6 +644,13 @@ theorem lockValidators_spec (C : Crypto PK SK Sig M) (n : Nat) (vals : List V) (
     | Except.ok vals => Except.ok (clearRegs pregen vals)) = _
   rw [h]
 
+theorem clearRegs_map_pubShares (pregen : Bool) (l : List (DistValidator PK Sig)) :
+    (clearRegs pregen l).map (·.pubShares) = l.map (·.pubShares) ∧
+    (clearRegs pregen l).map (·.pubKey) = l.map (·.pubKey) ∧
+    (clearRegs pregen l).map (·.deposits) = l.map (·.deposits) := by
+  unfold clearRegs
+  cases pregen <;> simp [List.map_map, Function.comp_def]
+
 /-! ### nothing is aggregated without verification -/
 
 omit [DecidableEq PK] in
@@ -970,5 +980,394 @@ theorem exRun_justified (n : Nat) (peerMap : List (P × Nat)) (evs : List (Ev P 
         rw [this]; exact hmono
 
 end Exchanger
+
+/-! ### shape of the exchanger's state; the result of an exchange among honest nodes -/
+
+section Exchanger2
+variable {PK Sig P : Type} [DecidableEq PK] [DecidableEq Sig] [DecidableEq P]
+
+theorem put_keys_nodup {K V : Type} [DecidableEq K] (m : List (K × V)) (k : K) (v : V)
+    (h : (m.map Prod.fst).Nodup) : ((put m k v).map Prod.fst).Nodup := by
+  induction m with
+  | nil => simp [put]
+  | cons x r ih =>
+    obtain ⟨k', v'⟩ := x
+    simp only [List.map_cons, List.nodup_cons] at h
+    by_cases hk : k' = k
+    · subst hk; simp [put, h.1, h.2]
+    · simp only [put, hk, if_false, List.map_cons, List.nodup_cons]
+      refine ⟨?_, ih h.2⟩
+      intro hm
+      obtain ⟨e, he, hek⟩ := List.mem_map.mp hm
+      rcases mem_put r k v e he with h1 | h1
+      · subst h1; exact hk hek.symm
+      · exact h.1 (List.mem_map.mpr ⟨e, h1, hek⟩)
+
+omit [DecidableEq PK] in
+theorem dbStore_stored (entries : List (ParSig Sig)) (v : ParSig Sig) (sigs : List (ParSig Sig))
+    (h : dbStore entries v = .stored sigs) (hnd : (entries.map (·.shareIdx)).Nodup) :
+    sigs = entries ++ [v] ∧ (sigs.map (·.shareIdx)).Nodup := by
+  unfold dbStore at h
+  cases hf : entries.find? (fun s => s.shareIdx == v.shareIdx) with
+  | some s => simp only [hf] at h; split at h <;> cases h
+  | none =>
+    simp only [hf] at h
+    cases h
+    refine ⟨rfl, ?_⟩
+    rw [List.map_append, List.nodup_append]
+    refine ⟨hnd, by simp, ?_⟩
+    intro a ha b hb
+    simp only [List.map_cons, List.map_nil, List.mem_singleton] at hb
+    subst hb
+    obtain ⟨e, he, rfl⟩ := List.mem_map.mp ha
+    have := List.find?_eq_none.mp hf e he
+    simpa using this
+
+/-- shape invariant of the exchanger: database lists hold at most one entry per share index; the
+collected maps have pairwise different keys and every collected list has exactly `n` entries with
+pairwise different share indices. -/
+def ExShape (n : Nat) (st : ExState PK Sig) : Prop :=
+  (∀ key sigs, (key, sigs) ∈ st.db → (sigs.map (·.shareIdx)).Nodup) ∧
+  (∀ tau m, (tau, m) ∈ st.store → (m.map Prod.fst).Nodup ∧
+    ∀ pk sigs, (pk, sigs) ∈ m → sigs.length = n ∧ (sigs.map (·.shareIdx)).Nodup)
+
+theorem storeLoop_shape (n tau : Nat) (set : List (PK × ParSig Sig))
+    (db : List ((Nat × PK) × List (ParSig Sig))) (out : List (PK × List (ParSig Sig)))
+    (hdb : ∀ key sigs, (key, sigs) ∈ db → (sigs.map (·.shareIdx)).Nodup)
+    (hout : (out.map Prod.fst).Nodup ∧ ∀ pk sigs, (pk, sigs) ∈ out → sigs.length = n ∧ (sigs.map (·.shareIdx)).Nodup) :
+    (∀ key sigs, (key, sigs) ∈ (storeLoop n tau set db out).1 → (sigs.map (·.shareIdx)).Nodup) ∧
+    (((storeLoop n tau set db out).2.map Prod.fst).Nodup ∧
+      ∀ pk sigs, (pk, sigs) ∈ (storeLoop n tau set db out).2 → sigs.length = n ∧ (sigs.map (·.shareIdx)).Nodup) := by
+  induction set generalizing db out with
+  | nil => exact ⟨hdb, hout⟩
+  | cons e rest ih =>
+    obtain ⟨pk, v⟩ := e
+    unfold storeLoop
+    cases hs : dbStore ((get? db (tau, pk)).getD []) v with
+    | dup => exact ih db out hdb hout
+    | mismatch => exact ih db out hdb hout
+    | stored sigs =>
+      simp only
+      have hent : (((get? db (tau, pk)).getD []).map (·.shareIdx)).Nodup := by
+        cases hg : get? db (tau, pk) with
+        | none => simp
+        | some l => simpa using hdb (tau, pk) l (mem_of_get? db _ _ hg)
+      obtain ⟨_, hsnd⟩ := dbStore_stored _ v sigs hs hent
+      have hdb' : ∀ key sigs', (key, sigs') ∈ put db (tau, pk) sigs → (sigs'.map (·.shareIdx)).Nodup := by
+        intro key sigs' hm
+        rcases mem_put db (tau, pk) sigs _ hm with h1 | h1
+        · cases h1; exact hsnd
+        · exact hdb key sigs' h1
+      by_cases hlen : (sigs.length == n) = true
+      · simp only [hlen, if_true]
+        apply ih _ _ hdb'
+        refine ⟨put_keys_nodup out pk sigs hout.1, ?_⟩
+        intro pk' sigs' hm
+        rcases mem_put out pk sigs _ hm with h1 | h1
+        · cases h1; exact ⟨by simpa using hlen, hsnd⟩
+        · exact hout.2 pk' sigs' h1
+      · simp only [hlen]
+        exact ih _ _ hdb' hout
+
+theorem foldl_put_shape {K V : Type} [DecidableEq K] (Q : K → V → Prop) (out cur : List (K × V))
+    (hout : ∀ e ∈ out, Q e.1 e.2) (hcur : (cur.map Prod.fst).Nodup ∧ ∀ e ∈ cur, Q e.1 e.2) :
+    ((out.foldl (fun m e => put m e.1 e.2) cur).map Prod.fst).Nodup ∧
+      ∀ e ∈ out.foldl (fun m e => put m e.1 e.2) cur, Q e.1 e.2 := by
+  induction out generalizing cur with
+  | nil => exact hcur
+  | cons x r ih =>
+    refine ih (put cur x.1 x.2) (fun e he => hout e (List.mem_cons_of_mem _ he)) ⟨put_keys_nodup _ _ _ hcur.1, ?_⟩
+    intro e he
+    rcases mem_put cur x.1 x.2 e he with h1 | h1
+    · subst h1; exact hout x List.mem_cons_self
+    · exact hcur.2 e h1
+
+theorem storeExternal_shape (n : Nat) (st : ExState PK Sig) (tau : Nat) (set : List (PK × ParSig Sig))
+    (hst : ExShape n st) : ExShape n (storeExternal n st tau set) := by
+  obtain ⟨hdb, hstore⟩ := hst
+  have hl := storeLoop_shape n tau set st.db [] hdb ⟨by simp, by intro _ _ h; cases h⟩
+  unfold storeExternal
+  cases hsl : storeLoop n tau set st.db [] with
+  | mk db out =>
+    rw [hsl] at hl
+    simp only
+    by_cases hemp : out.isEmpty = true
+    · simp only [hemp, if_true]
+      exact ⟨hl.1, hstore⟩
+    · simp only [hemp]
+      refine ⟨hl.1, ?_⟩
+      intro tau' m hm
+      rcases mem_put st.store tau _ _ hm with h1 | h1
+      · cases h1
+        have hcur : (((get? st.store tau).getD []).map Prod.fst).Nodup ∧
+            ∀ e ∈ (get? st.store tau).getD [], e.2.length = n ∧ (e.2.map (·.shareIdx)).Nodup := by
+          cases hg : get? st.store tau with
+          | none => simp
+          | some l =>
+            have := hstore tau l (mem_of_get? _ _ _ hg)
+            exact ⟨by simpa using this.1, by intro e he; simp only [Option.getD_some] at he; exact this.2 e.1 e.2 he⟩
+        have := foldl_put_shape (fun (_ : PK) (sigs : List (ParSig Sig)) => sigs.length = n ∧ (sigs.map (·.shareIdx)).Nodup)
+          out _ (fun e he => hl.2.2 e.1 e.2 he) hcur
+        exact ⟨this.1, fun pk sigs h => this.2 (pk, sigs) h⟩
+      · exact hstore tau' m h1
+
+theorem exRun_shape (n : Nat) (peerMap : List (P × Nat)) (evs : List (Ev P PK Sig)) :
+    ExShape n (exRun (PK := PK) (Sig := Sig) n peerMap evs) := by
+  induction evs using List.reverseRecOn with
+  | nil => simp [ExShape, exRun]
+  | append_singleton evs ev ih =>
+    unfold exRun at ih ⊢
+    rw [List.foldl_append, List.foldl_cons, List.foldl_nil]
+    cases ev with
+    | own tau set => exact storeExternal_shape n _ tau set ih
+    | recv s tau set =>
+      show ExShape n (recv n peerMap _ s tau set).1
+      unfold recv
+      by_cases hg : gater tau = true
+      · by_cases ha : set.all (fun e => verifyPeerShareIdx peerMap s e.2) = true
+        · simp only [hg, ha, Bool.not_true, if_true]
+          exact storeExternal_shape n _ tau set ih
+        · simp [hg, ha]; exact ih
+      · simp [hg]; exact ih
+
+omit [DecidableEq PK] [DecidableEq Sig] [DecidableEq P] in
+theorem exists_forall₂ {α β : Type} (R : α → β → Prop) (l : List α) (h : ∀ a ∈ l, ∃ b, R a b) :
+    ∃ bs, List.Forall₂ R l bs := by
+  induction l with
+  | nil => exact ⟨[], List.Forall₂.nil⟩
+  | cons a r ih =>
+    obtain ⟨b, hb⟩ := h a List.mem_cons_self
+    obtain ⟨bs, hbs⟩ := ih fun a' ha' => h a' (List.mem_cons_of_mem _ ha')
+    exact ⟨b :: bs, List.Forall₂.cons hb hbs⟩
+
+omit [DecidableEq PK] [DecidableEq Sig] [DecidableEq P] in
+theorem perm_of_nodup_subset_length {α : Type} (l₁ l₂ : List α) (hnd : l₁.Nodup) (hsub : l₁ ⊆ l₂)
+    (hlen : l₂.length ≤ l₁.length) : l₁.Perm l₂ :=
+  (List.subperm_of_subset hnd hsub).perm_of_length_le hlen
+
+/-- **What `exchange` returns when the node and its peers are honest is an honest exchange.** After
+ANY sequence of events in which every partial the node itself filed, and every partial a peer sent
+under its own share index, for this sigType is *genuine* (under validator `v`'s key, the signature
+`σ i v` of the share index `i ∈ 1..n` it is filed under) — other sigTypes, duplicates, early and
+refused messages are arbitrary — a result of `exchange` for `vals.length` validators holds every
+validator of the ceremony exactly once (some map order) with exactly one genuine partial of every
+share index `1..n` (some arrival order). -/
+theorem query_honest {V : Type} (n : Nat) (hn : 1 ≤ n) (peerMap : List (P × Nat)) (evs : List (Ev P PK Sig)) (tau : Nat)
+    (vals : List V) (gpk : V → PK) (hinj : Function.Injective gpk) (σ : Nat → V → Sig)
+    (hgen : ∀ pk p, Justified peerMap evs tau pk p →
+      ∃ v ∈ vals, pk = gpk v ∧ p.shareIdx ∈ List.range' 1 n ∧ p.sig = σ p.shareIdx v)
+    (data : List (PK × List (ParSig Sig)))
+    (hq : query (exRun n peerMap evs) tau vals.length = some data) :
+    ∃ vs : List V, vs.Perm vals ∧
+      List.Forall₂ (fun e v => e.1 = gpk v ∧ e.2.Perm ((List.range' 1 n).map fun i => (⟨σ i v, i⟩ : ParSig Sig))) data vs := by
+  have hjust := exRun_justified (PK := PK) (Sig := Sig) n peerMap evs
+  have hshape := exRun_shape (PK := PK) (Sig := Sig) n peerMap evs
+  -- the returned map is the collected map of the sigType, with `vals.length` keys
+  have hmem : data.length = vals.length ∧ (data = [] ∨ (tau, data) ∈ (exRun n peerMap evs).store) := by
+    unfold query at hq
+    cases hg : get? (exRun n peerMap evs).store tau with
+    | none =>
+      simp only [hg, Option.getD_none] at hq
+      split at hq
+      · rename_i hlen; cases hq; exact ⟨by simpa using hlen, Or.inl rfl⟩
+      · cases hq
+    | some m =>
+      simp only [hg, Option.getD_some] at hq
+      split at hq
+      · rename_i hlen
+        have hm : m = data := Option.some.inj hq
+        subst hm
+        exact ⟨by simpa using hlen, Or.inr (mem_of_get? _ _ _ hg)⟩
+      · cases hq
+  obtain ⟨hlen, hstore⟩ := hmem
+  have hkeys : (data.map Prod.fst).Nodup := by
+    rcases hstore with h | h
+    · subst h; simp
+    · exact (hshape.2 tau data h).1
+  have hent : ∀ e ∈ data, ∃ v, v ∈ vals ∧ e.1 = gpk v ∧
+      e.2.Perm ((List.range' 1 n).map fun i => (⟨σ i v, i⟩ : ParSig Sig)) := by
+    intro e he
+    rcases hstore with h | h
+    · subst h; cases he
+    · obtain ⟨pk, sigs⟩ := e
+      obtain ⟨hl, hnd⟩ := (hshape.2 tau data h).2 pk sigs he
+      have hj : ∀ p ∈ sigs, Justified peerMap evs tau pk p := hjust.2 tau data h pk sigs he
+      cases sigs with
+      | nil => simp at hl; omega
+      | cons p0 rest =>
+        obtain ⟨v0, hv0, hpk, _, _⟩ := hgen pk p0 (hj p0 List.mem_cons_self)
+        refine ⟨v0, hv0, hpk, ?_⟩
+        have hall : ∀ p ∈ p0 :: rest, p.shareIdx ∈ List.range' 1 n ∧ p = ⟨σ p.shareIdx v0, p.shareIdx⟩ := by
+          intro p hp
+          obtain ⟨v, _, hpk', hi, hs⟩ := hgen pk p (hj p hp)
+          have : v = v0 := hinj (hpk'.symm.trans hpk)
+          subst this
+          refine ⟨hi, ?_⟩
+          cases p; simp only at hs; simp [hs]
+        have hidx : ((p0 :: rest).map (·.shareIdx)).Perm (List.range' 1 n) :=
+          perm_of_nodup_subset_length _ _ hnd
+            (by intro i hi; obtain ⟨p, hp, rfl⟩ := List.mem_map.mp hi; exact (hall p hp).1)
+            (by simp at hl ⊢; omega)
+        have hmapeq : (p0 :: rest) = ((p0 :: rest).map (·.shareIdx)).map (fun i => (⟨σ i v0, i⟩ : ParSig Sig)) := by
+          rw [List.map_map]
+          conv_lhs => rw [← List.map_id (p0 :: rest)]
+          apply List.map_congr_left
+          intro p hp
+          exact (hall p hp).2
+        rw [hmapeq]
+        show (List.map (fun i => (⟨σ i v0, i⟩ : ParSig Sig)) _).Perm _
+        exact hidx.map _
+  obtain ⟨vs, hvs⟩ := exists_forall₂ (fun e v => v ∈ vals ∧ e.1 = gpk v ∧
+      e.2.Perm ((List.range' 1 n).map fun i => (⟨σ i v, i⟩ : ParSig Sig))) data hent
+  have hvsub : vs ⊆ vals := by
+    intro v hv
+    clear hkeys hent hlen hstore hq
+    induction hvs with
+    | nil => cases hv
+    | cons hab _ ih =>
+      rcases List.mem_cons.mp hv with h | h
+      · subst h; exact hab.1
+      · exact ih h
+  have hmap : vs.map gpk = data.map Prod.fst := by
+    clear hkeys hent hlen hstore hq hvsub
+    induction hvs with
+    | nil => rfl
+    | cons hab _ ih => simp [hab.2.1, ih]
+  have hvnd : vs.Nodup := by
+    have : (vs.map gpk).Nodup := hmap ▸ hkeys
+    exact List.Nodup.of_map gpk this
+  refine ⟨vs, perm_of_nodup_subset_length vs vals hvnd hvsub ?_, ?_⟩
+  · rw [← hlen, ← List.Forall₂.length_eq hvs]
+  · exact List.Forall₂.imp (fun _ _ h => ⟨h.2.1, h.2.2⟩) hvs
+
+
+end Exchanger2
+
+open Polynomial Finset CharonV.Tbls
+
+section Algebra
+variable {F : Type} [Field F] {G1 G2 : Type} [AddCommGroup G1] [Module F G1] [AddCommGroup G2] [Module F G2]
+variable {M : Type}
+
+/-- value filed under index `i` in a collected map (`0` if absent). -/
+def lookupD (l : List (ℕ × G2)) (i : ℕ) : G2 := ((l.find? (fun e => e.1 == i)).map Prod.snd).getD 0
+
+/-- Threshold BLS (`Spec/Tbls`) as the `Crypto` of the glue: secrets are scalars, the public key of
+`s` is `s • g1`, the signature of `s` over `m` is `s • Hm m`, `Verify` is the idealised pairing
+equation, `ThresholdAggregate` is the Lagrange combination over the indices present in the map,
+`Aggregate` the sum. -/
+noncomputable def algCrypto (g1 : G1) (Hm : M → G2) (droot : DepositMsg G1 → M) (rroot : RegMsg G1 → M) :
+    Crypto G1 F G2 M where
+  pub s := pk g1 s
+  sign s m := sign Hm s m
+  verify K m σ := @decide (Verifies F g1 Hm K m σ) (Classical.propDecidable _)
+  thresholdAgg l := recoverG F (l.map Prod.fst).toFinset (lookupD l)
+  aggregate sigs := sigs.sum
+  verifyAgg pks σ m := @decide (Verifies F g1 Hm pks.sum m σ) (Classical.propDecidable _)
+  depositRoot := droot
+  regRoot := rroot
+
+theorem lookupD_of_mem (l : List (ℕ × G2)) (hnd : (l.map Prod.fst).Nodup) (e : ℕ × G2) (he : e ∈ l) :
+    lookupD l e.1 = e.2 := by
+  unfold lookupD
+  induction l with
+  | nil => cases he
+  | cons x r ih =>
+    simp only [List.map_cons, List.nodup_cons] at hnd
+    rcases List.mem_cons.mp he with h | h
+    · subst h; simp
+    · have hne : x.1 ≠ e.1 := by
+        intro hh
+        exact hnd.1 (hh ▸ List.mem_map.mpr ⟨e, h, rfl⟩)
+      simp [hne, ih hnd.2 h]
+
+/-- **The collected partials of all `n` share indices aggregate to the group signature.** The map
+`l` (any order) holds under every index `1..n` that share's signature over `m`; the sharing
+polynomial has degree `< t ≤ n`; the indices are distinct scalars. -/
+theorem alg_threshold_agg (g1 : G1) (Hm : M → G2) (droot : DepositMsg G1 → M) (rroot : RegMsg G1 → M)
+    (t n : ℕ) (htn : t ≤ n) (p : F[X]) (hp : p.degree < t)
+    (hinj : IdsDistinct F (List.range' 1 n).toFinset) (m : M)
+    (l : List (ℕ × G2)) (hkeys : (l.map Prod.fst).Perm (List.range' 1 n))
+    (hvals : ∀ e ∈ l, e.2 = sign Hm (share p e.1) m) :
+    (algCrypto (F := F) g1 Hm droot rroot).thresholdAgg l = sign Hm (p.eval 0) m := by
+  have hnd : (l.map Prod.fst).Nodup := hkeys.nodup_iff.mpr (List.nodup_range' (step := 1))
+  have hS : (l.map Prod.fst).toFinset = (List.range' 1 n).toFinset := List.toFinset_eq_of_perm _ _ hkeys
+  show recoverG F (l.map Prod.fst).toFinset (lookupD l) = _
+  rw [hS]
+  have hcongr : recoverG F (List.range' 1 n).toFinset (lookupD l) =
+      recoverG F (List.range' 1 n).toFinset (fun j => sign Hm (share p j) m) := by
+    unfold recoverG
+    apply Finset.sum_congr rfl
+    intro i hi
+    have hi' : i ∈ l.map Prod.fst := hkeys.mem_iff.mpr (List.mem_toFinset.mp hi)
+    obtain ⟨e, he, rfl⟩ := List.mem_map.mp hi'
+    rw [lookupD_of_mem l hnd e he, hvals e he]
+  rw [hcongr]
+  unfold sign
+  rw [recoverG_smul, recover_share p _ hinj]
+  have hcard : (List.range' 1 n).toFinset.card = n := by
+    rw [List.toFinset_card_of_nodup (List.nodup_range' (step := 1))]; simp
+  rw [hcard]
+  exact lt_of_lt_of_le hp (by exact_mod_cast htn)
+
+/-- threshold BLS satisfies what the glue needs (`Laws`): for every family of sharing polynomials of
+degree `< t ≤ n` (one per validator) with `sec i v = p_v(i)`, `psh i v = p_v(i) • g1`,
+`gpk v = p_v(0) • g1`, `gsig v m = p_v(0) • Hm m`. -/
+theorem alg_laws {V : Type} (g1 : G1) (Hm : M → G2) (droot : DepositMsg G1 → M) (rroot : RegMsg G1 → M)
+    (t n : ℕ) (htn : t ≤ n) (p : V → F[X]) (hp : ∀ v, (p v).degree < t)
+    (hinj : IdsDistinct F (List.range' 1 n).toFinset) :
+    Laws (algCrypto (F := F) g1 Hm droot rroot) n (fun v => pk g1 ((p v).eval 0)) (fun i v => share (p v) i)
+      (fun i v => pk g1 (share (p v) i)) (fun v m => sign Hm ((p v).eval 0) m) where
+  pub_share _ _ := rfl
+  verify_partial i _ v m := by
+    show @decide (Verifies F g1 Hm _ m _) (Classical.propDecidable _) = true
+    exact @decide_eq_true _ (Classical.propDecidable _) ⟨share (p v) i, rfl, rfl⟩
+  threshold_agg v m l hk hv := alg_threshold_agg g1 Hm droot rroot t n htn (p v) (hp v) hinj m l hk hv
+  verify_group v m := by
+    show @decide (Verifies F g1 Hm _ m _) (Classical.propDecidable _) = true
+    exact @decide_eq_true _ (Classical.propDecidable _) ⟨(p v).eval 0, rfl, rfl⟩
+
+end Algebra
+
+
+/-! ### a small computable instance (non-vacuity examples) -/
+
+section Toy
+
+/-- keys are `(share index, validator)` with index `0` for the group key; a signature is the pair
+(signing key's public key, message); the threshold aggregate of a non-empty map of one validator's
+partials is that validator's group signature. -/
+def toyCrypto : Crypto (Nat × Nat) (Nat × Nat) ((Nat × Nat) × Nat) Nat where
+  pub sk := sk
+  sign sk m := (sk, m)
+  verify pk m σ := σ == (pk, m)
+  thresholdAgg l := match l with
+    | (_, ((_, v), m)) :: _ => ((0, v), m)
+    | [] => ((0, 0), 0)
+  aggregate sigs := match sigs with
+    | (_, m) :: _ => ((0, sigs.length), m)
+    | [] => ((0, 0), 0)
+  verifyAgg pks σ m := σ == ((0, pks.length), m)
+  depositRoot d := 1000000 * d.pubKey.2 + 1000 * d.wd + d.amount
+  regRoot r := 500000 + 1000000 * r.pubKey.2 + 1000 * r.fee + r.gas
+
+theorem toy_laws (n : Nat) (hn : 1 ≤ n) :
+    Laws toyCrypto n (fun v : Nat => (0, v)) (fun i v => (i, v)) (fun i v => (i, v)) (fun v m => ((0, v), m)) where
+  pub_share _ _ := rfl
+  verify_partial _ _ _ _ := by simp [toyCrypto]
+  threshold_agg v m l hk hv := by
+    cases l with
+    | nil =>
+      have := hk.length_eq
+      simp at this; omega
+    | cons e r =>
+      have := hv e List.mem_cons_self
+      obtain ⟨i, σ⟩ := e
+      simp only at this
+      subst this
+      rfl
+  verify_group _ _ := by simp [toyCrypto]
+
+end Toy
 
 end CharonV.DkgGlue
